@@ -111,6 +111,132 @@ def _rooted_at(t, sn):
     return isinstance(t, ast.Name) and t.id == sn
 
 
+FRESH_CALLS = ("list", "dict", "set", "sorted", "tuple", "copy.copy", "copy.deepcopy", "np.array", "np.copy", "bytearray")
+
+
+def default_mutated_in_place(fn: ast.FunctionDef, p: str):
+    """Statements that mutate parameter `p` in place while it can still be the default object: a mutating method call, an item /
+    slice store, `p += ..`.  The alias ends at a top-level rebinding of `p` to a fresh object (a display, a comprehension, list(p),
+    p.copy(), [*p]); `p = [] if p is None else p` keeps it (the default is not None)."""
+    out = []
+
+    def fresh(v):
+        if isinstance(v, (ast.List, ast.Dict, ast.Set, ast.ListComp, ast.DictComp, ast.SetComp, ast.Tuple)):
+            return not any(isinstance(e, ast.Name) and e.id == p for e in getattr(v, "elts", []))
+        if isinstance(v, ast.Call) and norm(v.func) in FRESH_CALLS:
+            return True
+        if isinstance(v, ast.Call) and isinstance(v.func, ast.Attribute) and v.func.attr in ("copy", "tolist") and isinstance(v.func.value, ast.Name) and v.func.value.id == p:
+            return True
+        if isinstance(v, ast.IfExp):
+            return fresh(v.body) and fresh(v.orelse)
+        if isinstance(v, ast.BoolOp):
+            return all(fresh(x) for x in v.values)
+        return not any(isinstance(x, ast.Name) and x.id == p for x in ast.walk(v))
+
+    def may_be(v, names):
+        """can the value of v be the very object one of `names` is bound to?"""
+        if isinstance(v, ast.Name):
+            return v.id in names
+        if isinstance(v, ast.IfExp):
+            return may_be(v.body, names) or may_be(v.orelse, names)
+        if isinstance(v, ast.BoolOp):
+            return any(may_be(x, names) for x in v.values)
+        if isinstance(v, ast.NamedExpr):
+            return may_be(v.value, names)
+        return False
+
+    aliases = {p}
+    for st in fn.body:
+        if isinstance(st, ast.Assign) and any(isinstance(t, ast.Name) and t.id == p for t in st.targets) and fresh(st.value):
+            aliases.discard(p)
+            if not aliases:
+                break
+            continue
+        if isinstance(st, ast.Assign) and may_be(st.value, aliases):
+            aliases |= {t.id for t in st.targets if isinstance(t, ast.Name)}
+        for x in ast.walk(st):
+            if isinstance(x, ast.Call) and isinstance(x.func, ast.Attribute) and x.func.attr in MUT_METHODS and isinstance(x.func.value, ast.Name) and x.func.value.id in aliases:
+                out.append(x)
+            elif isinstance(x, (ast.Assign, ast.AugAssign, ast.Delete)):
+                for t in (x.targets if isinstance(x, (ast.Assign, ast.Delete)) else [x.target]):
+                    if isinstance(t, ast.Subscript) and isinstance(t.value, ast.Name) and t.value.id in aliases:
+                        out.append(x)
+                    elif isinstance(x, ast.AugAssign) and isinstance(t, ast.Name) and t.id in aliases:
+                        out.append(x)
+    return out
+
+
+def descriptor_state(prog, rep, rule="no-class-level-container"):
+    """A data descriptor bound in a class body is ONE object for all instances of that class: a `__set__` that keeps the value on
+    the descriptor (`self.x = value`) instead of on the instance gives every block the value assigned last."""
+    n = 0
+    for m in prog.modules.values():
+        for c in m.classes.values():
+            for name, v in c.assigns.items():
+                if not (isinstance(v, ast.Call) and isinstance(v.func, ast.Name)):
+                    continue
+                k = prog.resolve_class(c.module, v.func.id)
+                if k is None:
+                    continue
+                setter = k.get("__set__")
+                if setter is None:
+                    continue
+                n += 1
+                dsn = setter.params_all[0] if getattr(setter, "params_all", None) else (setter.node.args.args[0].arg if setter.node.args.args else "self")
+                own = [x for x in walk_no_nested(setter.node) if isinstance(x, (ast.Assign, ast.AugAssign, ast.AnnAssign))
+                       for t in (x.targets if isinstance(x, ast.Assign) else [x.target])
+                       for y in ast.walk(t) if isinstance(y, ast.Attribute) and isinstance(y.value, ast.Name) and y.value.id == dsn and isinstance(y.ctx, ast.Store)]
+                own += [x for x in walk_no_nested(setter.node) if isinstance(x, ast.Call) and isinstance(x.func, ast.Attribute) and x.func.attr in MUT_METHODS
+                        and isinstance(x.func.value, ast.Attribute) and isinstance(x.func.value.value, ast.Name) and x.func.value.value.id == dsn]
+                if own:
+                    rep.fail(rule, m.path.name, f"{k.name}.__set__", own[0], f"`{norm(head(own[0]))[:60]}` keeps the value on the descriptor itself; `{c.name}.{name} = {norm(v)}` is one object for every {c.name}: "
+                             f"assigning `{name}` on one block changes what every other block reads", construct=f"class {c.name}: {name} = {norm(v)} (descriptor keeps state)")
+                else:
+                    rep.ok(rule, f"{c.name}.{name}: descriptor {k.name} keeps nothing on itself")
+    return n
+
+
+def adders_leave_items(prog, rep, rule="fresh-containers"):
+    """An item handed to a block stays the caller's object - another block (the one it was decoded with) may hold it too.  A method
+    that takes an item and appends it to one of its lists must not write into the item (attribute store, in-place array store,
+    mutating call on one of its attributes): that changes the other block without anyone touching it."""
+    n = 0
+    for m in prog.modules.values():
+        for c in m.classes.values():
+            for f in c.all_funcs():
+                sn = f.self_name or "self"
+                appended = set()
+                for x in walk_no_nested(f.node):
+                    if isinstance(x, ast.Call) and isinstance(x.func, ast.Attribute) and x.func.attr in ("append", "insert") and is_self_attr(x.func.value, self_name=sn) and x.args \
+                            and isinstance(x.args[-1], ast.Name) and x.args[-1].id in f.params:
+                        appended.add(x.args[-1].id)
+                for p in sorted(appended):
+                    n += 1
+                    bad = None
+                    for x in walk_no_nested(f.node):
+                        tg = x.targets if isinstance(x, (ast.Assign, ast.Delete)) else [x.target] if isinstance(x, (ast.AugAssign, ast.AnnAssign)) else []
+                        for t in tg:
+                            b = t
+                            while isinstance(b, (ast.Subscript, ast.Attribute)):
+                                b = b.value
+                            if isinstance(t, (ast.Subscript, ast.Attribute)) and isinstance(b, ast.Name) and b.id == p:
+                                bad = x
+                        if isinstance(x, ast.Call) and isinstance(x.func, ast.Attribute) and x.func.attr in set(MUT_METHODS) | {"fill", "resize", "put", "itemset"}:
+                            b = x.func.value
+                            depth = 0
+                            while isinstance(b, (ast.Subscript, ast.Attribute)):
+                                b = b.value
+                                depth += 1
+                            if depth and isinstance(b, ast.Name) and b.id == p:
+                                bad = x
+                    if bad is not None:
+                        rep.fail(rule, m.path.name, f"{c.name}.{f.name}", bad, f"`{norm(head(bad))[:70]}` writes into the item `{p}` that is being inserted: the item is the caller's object and may belong to another block "
+                                 "(the one it was decoded with), which changes although nobody touched it", construct=f"{c.name}.{f.name} writes into its item {p}")
+                    else:
+                        rep.ok(rule, f"{c.name}.{f.name}: the inserted item `{p}` is stored, never written into")
+    rep.floor(rule + "/adders", n, 5)
+
+
 def self_check():
     tree = ast.parse(EMBEDDED_EXAMPLE)
     fn = tree.body[0].body[0]
@@ -137,6 +263,12 @@ def run(prog, rep):
                     if not is_mutable_display(d):
                         continue
                     esc = escapes(f.node, p, default_kind(d), sn)
+                    inplace = default_mutated_in_place(f.node, p)
+                    if inplace and not esc:
+                        rep.fail("no-shared-default", m.path.name, f"{c.name}.{f.name}", inplace[0],
+                                 f"`{norm(head(inplace[0]))[:60]}` changes the mutable default `{p}={norm(d)}` in place (one object shared by all calls): what one block's call leaves in it is used by the next call on any other block",
+                                 construct=f"def {f.name}(..., {p}={norm(d)}) mutated :: {norm(head(inplace[0]))[:50]}")
+                        continue
                     if esc:
                         rep.fail("no-shared-default", m.path.name, f"{c.name}.{f.name}", esc[0],
                                  f"the mutable default `{p}={norm(d)}` (one object shared by all calls) becomes instance state here: blocks created without `{p}` share it",
@@ -166,6 +298,8 @@ def run(prog, rep):
                     elif mutated is not None:
                         rep.ok("no-class-level-container", f"{c.name}.{name}: class-level display shadowed by an instance attribute in __init__")
     rep.floor("constructors", n_ctor, 20)
+    rep.attempt(descriptor_state, prog, rep)
+    rep.attempt(adders_leave_items, prog, rep)
     # fresh containers: every attribute mutated by methods is initialised from a fresh display or a caller argument
     n_cont = 0
     for m in prog.modules.values():
